@@ -11,5 +11,5 @@ for f in sorted(glob.glob(os.path.join(ROOT, "seeded", "*", "meta.json"))):
     if os.path.exists(sp):
         s = open(sp).read().strip().replace("\n", " ")
     by = m.get("caught_by", m["property"])
-    first = "missed, then strengthened" if "missed by the check as first built" in m.get("note", "") else ("NOT caught" if m.get("caught") is False else "caught")
+    first = "missed, then strengthened" if "missed by the check as first built" in m.get("note", "") else (("NOT caught: " + m["why_not"] if m.get("why_not") else "NOT caught") if m.get("caught") is False else "caught")
     print(f"| {m['name']} | {m['property']} | {s} | {by} | {first} |")
